@@ -451,14 +451,15 @@ def keep_rules(rep, fl, fn, rules, *args, rename=None, **kw):
 # what is a necessary condition of its own property, so that e.g. a change that loses the new
 # deadline of an update alarms C03 / C05 / C04 but not C02 or C18
 STORE_WRITE_ASPECTS = {
+    "C01": {"R06.7"},                                       # the policy's victims really leave the store
     "C02": {"R02.4", "R02.5", "R09.2", "R18.3"},           # value swapped in place, right outcome, guards, same key
     "C03": {"R03.5"},                                       # the new deadline is installed
-    "C04": {"R02.4", "R02.5", "R03.5", "R04.4", "R05.2", "R09.2", "R18.3", "R08.2"},  # exact map: everything
+    "C04": {"R02.4", "R02.5", "R03.5", "R04.4", "R05.2", "R09.2", "R18.3", "R08.2", "R06.7"},  # exact map: everything
     "C05": {"R03.5", "R05.2", "R09.2"},                     # stored deadline and expiry index move together, and only for an accepted write
-    "C06": {"R04.4"},                                       # what the policy admitted is stored
-    "C08": {"R02.4", "R08.2", "R09.2"},                     # old value comes back out, refused value handed back
+    "C06": {"R04.4", "R06.7"},                                       # what the policy admitted is stored
+    "C08": {"R02.4", "R08.2", "R09.2", "R06.7"},                     # old value comes back out, refused value handed back
     "C09": {"R09.2", "R02.4", "R02.5", "R03.5"},            # guards, outcomes, value swapped only when accepted; TTL untouched on veto
-    "C18": {"R18.3", "R09.2", "R02.5"},                     # same key, conflict test before every write
+    "C18": {"R18.3", "R09.2", "R02.5", "R06.7"},                     # same key, conflict test before every write
 }
 
 
@@ -601,6 +602,30 @@ def _store_writes_all(rep, fl):
         re_ = [norm(b.def_expr(x, y, True)) for x, y in b.defs.get(0, []) if x in b.reachable(bi)]
         okr = any(e[0] == "agg" and e[2].endswith("Result::Ok") and is_call(e[3][0], "HashMap::remove") for e in re_)
         rep.check(okr, "R08.2", fl, b, "returns removed item", "the removed StoreItem is returned to the caller (who routes its value to a callback)", "try_remove does not return the removed item")
+    # ... and the other way round: a removal asked for with the wildcard conflict 0 (the policy's victims) or with the
+    # entry's own conflict hash is carried out - the only refusal of a found entry is `conflict != 0 && conflict !=
+    # item.conflict`, known on the path.  (A stricter test - equality only - leaves every victim of a key builder with
+    # real conflict hashes in the store, uncharged.)
+    if len(rms) == 1:
+        import props_cache
+        rbi_ = rms[0][0]
+        outs_, at_ = props_cache.count_paths(b, lambda bi_, t_: "removed" if t_ is rms[0][1] else None)
+        okc = bool(outs_)
+        badp = None
+        for s_, cnt_ in outs_:
+            es_ = expand_state(b, s_, hist=True)
+            if cnt_.get("removed"):
+                continue
+            if any(a_[0] == "variant" and a_[2] in ("Break", "Err") and v_ for a_, v_ in es_.lits):
+                continue   # an error return of the expiry index
+            found_ = feval(A(("variant", le, "Some")), es_)
+            if found_ is False or feval(A(("variant", le, "None")), es_) is True:
+                continue
+            if feval(conflict_ok_formula(item), es_) is not False:
+                okc = False
+                badp = s_
+        rep.check(okc, "R06.7", fl, b, "own or wildcard removal happens", "a found entry is left in place only when conflict != 0 && conflict != item.conflict: a wildcard (0) or matching removal is always carried out",
+                  "try_remove can refuse although the caller passed the wildcard conflict 0 or the entry's own conflict hash (%s): the policy's victims (removed with conflict 0) stay in the store without a charge" % (show_state(badp) if badp else ""))
     er = calls_to(b, EM + "::try_remove")
     rep.note("R05.4 (recorded, not armed): store.try_remove calls em.try_remove: %s" % bool(er))
 
@@ -1188,5 +1213,7 @@ def check_C09(rep, fl):
     # a vetoed plain insert is forwarded as a New item of a tracked key: add() un-charges sampled victims only, and
     # only for lack of room - never the key it was called for - so the resident entry is not evicted by its own rewrite
     keep_rules(rep, fl, props_policy.check_C07, {"R07.2", "R07.6"})
+    # "as an update of value and cost": re-costing a charged key moves the charged total by exactly the difference
+    props_policy.check_balance(rep, fl, props_policy.slfu_writers(fl.facts))
     check_store_writes(rep, fl)
     check_ttl_plumbing(rep, fl)
